@@ -223,7 +223,7 @@ def run_job(job, tier, seed):
     if job == 'index':
         layouts = common.build_layouts(res, _cases(tier, rng))
         for tag, L in layouts:
-            check_layout(res, L, rng, tag, kmax)
+            common.gcall(res, check_layout, L, rng, tag, kmax)
         # custom names, Cl() with firstIdx and names, predefined modules
         extra = []
         for n in (2, 3):
@@ -240,14 +240,14 @@ def run_job(job, tier, seed):
         for name in ('g3c', 'pga', 'sta:D', 'g2'):
             extra.append((name, real.predefined(name)))
         for tag, L in extra:
-            check_layout(res, L, rng, tag, kmax)
-        correspondence(res, [(t, L) for t, L in layouts if L.gaDims <= 64], rng, 3 if tier == 'quick' else 10, 'nojit')
+            common.gcall(res, check_layout, L, rng, tag, kmax)
+        common.gcall(res, correspondence, [(t, L) for t, L in layouts if L.gaDims <= 64], rng, 3 if tier == 'quick' else 10, 'nojit')
     elif job == 'index_jit':
         cases = _cases('quick', rng)[:8]
         layouts = common.build_layouts(res, cases, prefix='J')
         for tag, L in layouts:
-            check_layout(res, L, rng, tag, kmax)
-        correspondence(res, layouts, rng, 4, 'jit')
+            common.gcall(res, check_layout, L, rng, tag, kmax)
+        common.gcall(res, correspondence, layouts, rng, 4, 'jit')
     else:
         raise ValueError(job)
     return res
